@@ -1174,6 +1174,16 @@ class Ctx:
         key = info.key
         if key in self.contract.opaque:
             raise Unsupported(f"opaque callee {key}")
+        if key in self.contract.stubs:
+            stub = self.sidecar.functions.get(self.contract.stubs[key])
+            if stub is None:
+                raise SourceError(f"stub {self.contract.stubs[key]} not found in side-car")
+            self.result.assumptions.add(
+                f"trusted stub {stub.name} stands for {key} (assumed contract in executable form)")
+            self.result.functions.setdefault(key, {
+                "file": os.path.relpath(info.module.path, self.world.repo), "span": list(info.span()),
+                "sha256": info.sha(), "role": "stubbed (assumed)"})
+            return I.inline_call(stub, args, kwargs, fr)
         if key in self.contract.use:
             c = self.registry.get(key)
             if c is None:
